@@ -390,8 +390,11 @@ class Driver:
         if t is None:
             return False
         k = mt["k"]
-        if k in ("int", "bool", "float"):
-            return bool(t["is_atomic"]) and t["atomic_token"] in ({"int": (1, 5, 8), "bool": (4,), "float": (2, 3)}[k])
+        if k == "float":
+            # float and double overloads may share a parameter name: the width decides
+            return bool(t["is_atomic"]) and t["atomic_token"] == (2 if mt.get("c") == "float" else 3)
+        if k in ("int", "bool"):
+            return bool(t["is_atomic"]) and t["atomic_token"] in ({"int": (1, 5, 8), "bool": (4,)}[k])
         if k in ("string", "cstr"):
             return (t["is_atomic"] and t["atomic_token"] == 7) or t["is_pointer"]
         if k == "enum":
